@@ -79,7 +79,8 @@ claim("C10", "other",
       "fewer than k samples; otherwise N // k windows, window j holds the record's samples j*k .. min(j*k+k, N-1) unaltered (k+1 samples, "
       "boundary sample shared, only a last window ending with the record is one short), same dt, discarded tail < k; loop invariant over a "
       "symbolic-length list of window objects; record not modified. SeismicRecording3C.split: window j of the recording consists of windows j "
-      "of the three components of the same split, orientation carried over (TimeSeries.split through its contract). hvsr_preprocess, for every "
+      "of the three components of the same split, orientation carried over (TimeSeries.split through its contract); SeismicRecording3C.trim / "
+      "detrend / window / butterworth_filter apply the TimeSeries method once to each of ns, ew, vt with the caller's arguments. hvsr_preprocess, for every "
       "number of recordings and of windows per recording (orientation set or None, window length and detrend mode set): the result is the "
       "windows of all recordings in order, and each window's content is DETREND(WINDOW_j(BUTTER(ORIENT(content of its recording)))) - the "
       "documented order of the steps, as a term over uninterpreted step functions kept in a ghost content map that the method models update "
